@@ -151,6 +151,10 @@ class HistoryRunner:
                         q.measure(future=arr.get_future_index(pair))
 
                     api(number=n, sequential=True, post_routine=post)
+                elif kind == "seq1":
+                    # sequential mode for one pair with nothing registered to handle it: the caller keeps the qubit
+                    n = 1
+                    self.handles.extend(api(number=1, sequential=True))
                 else:
                     if minfid:
                         # retry loop of the SDK; the scripted link reports goodness 0, so the first attempt is accepted
@@ -272,12 +276,14 @@ def make_machine(ctx: Ctx, stt):
             self.r.apply(["free", h])
 
         @precondition(lambda self: self.r is not None and self.r.room() >= 1)
-        @rule(role=st.sampled_from(["create", "recv"]), kind=st.sampled_from(["plain", "plain", "seq"]), n=st.integers(1, 3), bells=st.lists(st.integers(0, 3), min_size=3, max_size=3), minfid=st.integers(0, 5))
+        @rule(role=st.sampled_from(["create", "recv"]), kind=st.sampled_from(["plain", "plain", "seq", "seq1"]), n=st.integers(1, 3), bells=st.lists(st.integers(0, 3), min_size=3, max_size=3), minfid=st.integers(0, 5))
         def epr(self, role, kind, n, bells, minfid):
             if kind == "seq" and KF_SEQ in open_keys:
                 stt.excluded[KF_SEQ] += 1
                 kind = "plain"
-            need = 1 if kind == "seq" else n
+            need = 1 if kind in ("seq", "seq1") else n
+            if kind == "seq1":
+                n = 1
             if need > self.r.room():
                 n = self.r.room()
             if KF_NV_ASSERT in open_keys and self.r.config["hardware"] == "nv" and kind == "plain" and n > 1 and self.r.handles:
